@@ -80,6 +80,10 @@ class FilesystemIsolation(ContextDecorator):
     @staticmethod
     def _abspath(path: os.PathLike | str) -> str:
         """Convert a path to an absolute path."""
+        if isinstance(path, bytes | os.PathLike):
+            # str(b"/x") is "b'/x'": a bytes path would name a different file here than
+            # in the wrapped call and slip through every guard.
+            path = os.fsdecode(path)
         return _normalize_path(str(path))
 
     def _record_created(self, *paths: os.PathLike | str | None) -> None:
